@@ -357,6 +357,10 @@ def rule_pitch_chain(ctx):
     nb = [x.replace("self('scale')", 'scale') for x in b]
     ok = nb == ["ret = self['note'] + self('gtranspose') + self('root')"] + want_tail
     ctx.ob('C14.keys', f'{pk.fq}._midi_from_note:chain', ok, f'note chain must equal the degree chain after its first line; found {b}', pk.methods['_midi_from_note'].node, mod)
+    nt = pk.methods.get('note')
+    if nt is not None:
+        ctx.ob('C14.keys', f'{nt.fq}', full(nt.node).endswith("return self('scale').degree_to_key(self('degree') + self('mtranspose'))"),
+               'the derived note is the key of degree + mtranspose in the scale (the first step of the degree path)', nt.node, mod)
     checks = {'_detuned_freq': "return self('freq') * self('harmonic') + self('detune')", '_transposed_midinote': "return self('midinote') + self('ctranspose')",
               '_freq_from_midinote': 'return bi.midicps(self._transposed_midinote())', '_freq_from_degree': 'return bi.midicps(self._midinote_from_degree())',
               '_midinote_from_freq': 'return bi.cpsmidi(self._detuned_freq())'}
